@@ -110,7 +110,7 @@ node_type!(Robot);
 node_type!(Owner);
 
 /// the common resolver body
-async fn res<T: FromW>(ctx: &Context<'_>, node: usize, parent_type: &str, field: &str) -> Result<T> {
+pub async fn res<T: FromW>(ctx: &Context<'_>, node: usize, parent_type: &str, field: &str) -> Result<T> {
     let rt = ctx.data::<Rt>()?.clone();
     let path = ctx.path_node.map(|p| p.to_string()).unwrap_or_default();
     let args = ctx
